@@ -298,28 +298,31 @@ class State:
                         return True
                     if neg[op] in implies[qqop]:
                         return False
-        # integer reasoning with a constant offset:  p = qq + k  and  qq op' 0  bound p
+        # integer reasoning with a constant offset:  p = qq + k  and  qq op' 0  bound p; the bounds of
+        # all literals are intersected (a1 - 1 > 0 and a1 - 2 <= 0 give a1 - 2 == 0)
         inf = float("inf")
+        plo, phi = lo, hi
         for q, qop in self.lits:
             q = self.norm(q)
             for qq, qqop in ((q, qop), (-q, flip[qop])):
                 k = (p - qq).as_int()
                 if k is None:
                     continue
-                plo, phi = {">": (1 + k, inf), ">=": (k, inf), "<": (-inf, k - 1), "<=": (-inf, k), "==": (k, k)}.get(qqop, (-inf, inf))
-                plo, phi = max(plo, lo), min(phi, hi)
-                t2 = {
-                    "==": (plo == phi == 0, plo > 0 or phi < 0),
-                    "!=": (plo > 0 or phi < 0, plo == phi == 0),
-                    ">": (plo > 0, phi <= 0),
-                    ">=": (plo >= 0, phi < 0),
-                    "<": (phi < 0, plo >= 0),
-                    "<=": (phi <= 0, plo > 0),
-                }[op]
-                if t2[0]:
-                    return True
-                if t2[1]:
-                    return False
+                l2, h2 = {">": (1 + k, inf), ">=": (k, inf), "<": (-inf, k - 1), "<=": (-inf, k), "==": (k, k)}.get(qqop, (-inf, inf))
+                plo, phi = max(plo, l2), min(phi, h2)
+        if (plo, phi) != (lo, hi):
+            t2 = {
+                "==": (plo == phi == 0, plo > 0 or phi < 0),
+                "!=": (plo > 0 or phi < 0, plo == phi == 0),
+                ">": (plo > 0, phi <= 0),
+                ">=": (plo >= 0, phi < 0),
+                "<": (phi < 0, plo >= 0),
+                "<=": (phi <= 0, plo > 0),
+            }[op]
+            if t2[0]:
+                return True
+            if t2[1]:
+                return False
         return None
 
     def assume(self, lit: tuple) -> bool:
@@ -709,6 +712,11 @@ class Interp:
                     continue
                 yield from self._unroll(s, items, 0, s2, fr)
             elif isinstance(itv, SeqV):
+                # a sequence that may be empty: the loop may not run at all
+                if s2.decide(itv.length, ">") is not True:
+                    s0 = s2.copy()
+                    if s0.assume(("cmp", itv.length, "==")):
+                        yield from self.block(s.orelse, s0, fr)
                 # run the body to a shape fixpoint (twice is enough for a shape-stable body)
                 done = False
                 for s3 in self.assign(s.target, itv.elem, s2, fr):
@@ -779,6 +787,17 @@ class Interp:
                 if n is not None and n <= MAX_UNROLL:
                     items = [TensorV(v.shape[1:], v.dtype)] * n
             star = [i for i, e in enumerate(target.elts) if isinstance(e, ast.Starred)]
+            if items is None and isinstance(v, SeqV) and len(star) == 1:
+                # first, *rest = <sequence of symbolic length>: the fixed targets take one element each
+                fixed = len(target.elts) - 1
+                rest = SeqV(v.elem, st.norm(v.length - Dim.const(fixed)))
+                states = [st]
+                for i, e in enumerate(target.elts):
+                    nxt = []
+                    for s2 in states:
+                        nxt.extend(self.assign(e.value if isinstance(e, ast.Starred) else e, rest if i == star[0] else v.elem, s2, fr))
+                    states = nxt
+                return states
             if items is None or (not star and len(items) != len(target.elts)):
                 for n_ in ast.walk(target):
                     if isinstance(n_, ast.Name):
